@@ -7,10 +7,23 @@ import time
 from . import core, mem
 
 ALGOS = ["fifo", "lru", "lfu", "s3fifo", "sieve"]
+CHUNK = 120        # scripts per TLC trace-validation process
+INNER_PAR = 3      # trace-validation processes per profile
+RAND_QUICK = 400   # random runs per profile in the quick tier (C14; half of it for the others)
 
 
 def profiles_for(pid, tier):
     """Bounded models (edge replay) and random-behaviour models (simulation) per property and tier."""
+    edge, sim = _profiles_for(pid, tier)
+    for p in sim:
+        # closing phase of every random run: see RandParams.reserve in the harness
+        p["reserve"] = 9
+        p["keys"] = list(p["keys"]) + [9]
+        p["hash"] = {**p["hash"], 9: 11}
+    return edge, sim
+
+
+def _profiles_for(pid, tier):
     P = mem.profile
     thorough = tier == "thorough"
     edge, sim = [], []
@@ -45,6 +58,9 @@ def profiles_for(pid, tier):
                           caps=[1], weights=[1, 2], hints=["normal"]))
         edge.append(P("lru-hints", "lru", ops=ops, max_steps=steps + 1 if thorough else steps, max_ins=4,
                       init_caps=[3], caps=[1], weights=[1, 2]))
+        edge.append(P("lru-deep", "lru", keys=[1, 2, 3], hash={1: 0, 2: 1, 3: 2}, weights=[1], hints=["normal", "low"],
+                      ops=["insert", "get", "drop"], max_held=1, max_ins=5, max_steps=7 if thorough else 6,
+                      init_caps=[2], caps=[]))
         edge.append(P("lru-ratio-1/4", "lru", ops=ops, max_steps=steps, cfg=dict(hiNum=1, hiDen=4),
                       init_caps=[4], caps=[2], max_ins=4))
         edge.append(P("s3fifo-thr2", "s3fifo", ops=ops, max_steps=steps + 1, cfg=dict(thr=2, sNum=1, sDen=4),
@@ -56,6 +72,29 @@ def profiles_for(pid, tier):
                          hash={1: 0, 2: 1, 3: 2, 4: 3, 5: 4, 6: 5, 7: 6, 8: 7}, shards=1, weights=[1, 2, 3],
                          caps=[3, 6, 12], init_caps=[8, 10], max_ins=40, max_steps=60, max_held=3,
                          ops=ops + ["clone", "clear"]))
+        # styles: the generator draws uniformly from these lists, so repetition is weight
+        h8 = {1: 0, 2: 1, 3: 2, 4: 3, 5: 4, 6: 5, 7: 6, 8: 7}
+        sim.append(P("lru-lowheavy", "lru", keys=[1, 2, 3, 4, 5, 6], hash={k: h8[k] for k in range(1, 7)}, weights=[1],
+                     hints=["low", "low", "normal"], caps=[4], init_caps=[4, 5], max_ins=40, max_held=2,
+                     ops=["insert", "insert", "insert", "get", "get", "drop", "drop", "remove"]))
+        sim.append(P("lru-ratio-lowheavy", "lru", keys=[1, 2, 3, 4, 5, 6], hash={k: h8[k] for k in range(1, 7)},
+                     weights=[1, 2], hints=["low", "normal"], caps=[6], init_caps=[6, 8], max_ins=40, max_held=2,
+                     cfg=dict(hiNum=1, hiDen=4), ops=["insert", "insert", "get", "get", "drop", "resize"]))
+        sim.append(P("lfu-promote", "lfu", keys=[1, 2, 3, 4, 5, 6], hash={k: h8[k] for k in range(1, 7)},
+                     weights=[1, 2, 3, 4], caps=[12], init_caps=[12, 16, 20], max_ins=40, max_held=1,
+                     cfg=dict(wNum=1, wDen=8, pNum=1, pDen=2), ops=["insert", "insert", "get", "get", "get", "touch"]))
+        sim.append(P("lfu-promote-small", "lfu", keys=[1, 2, 3, 4, 5], hash={k: h8[k] for k in range(1, 6)},
+                     weights=[1, 2, 3], caps=[6], init_caps=[6, 8], max_ins=40, max_held=1,
+                     cfg=dict(wNum=1, wDen=4, pNum=1, pDen=2), ops=["insert", "get", "get", "remove"]))
+        sim.append(P("s3fifo-churn", "s3fifo", keys=[1, 2, 3, 4, 5, 6], hash={k: h8[k] for k in range(1, 7)},
+                     weights=[1], caps=[3], init_caps=[3, 4], max_ins=40, max_held=1,
+                     cfg=dict(gNum=1, gDen=2), ops=["insert", "insert", "insert", "get", "remove"]))
+        sim.append(P("s3fifo-churn-weights", "s3fifo", keys=[1, 2, 3, 4, 5, 6], hash={k: h8[k] for k in range(1, 7)},
+                     weights=[1, 2], caps=[4, 6], init_caps=[5, 6], max_ins=40, max_held=1,
+                     cfg=dict(thr=2), ops=["insert", "insert", "get", "get", "resize"]))
+        sim.append(P("sieve-churn", "sieve", keys=[1, 2, 3, 4, 5, 6], hash={k: h8[k] for k in range(1, 7)},
+                     weights=[1, 2], caps=[3], init_caps=[3, 4], max_ins=40, max_held=1,
+                     ops=["insert", "insert", "get", "get", "remove"]))
     elif pid == "C17":
         ops = ["insert", "get", "drop", "remove", "contains", "touch"]
         for a in ALGOS:
@@ -71,6 +110,9 @@ def profiles_for(pid, tier):
         for a in ALGOS:
             edge.append(P(f"{a}-handles", a, ops=ops, max_steps=steps + 1 if a == "lru" else steps,
                           weights=[1], hints=["normal"], max_held=3, init_caps=[2], caps=[1]))
+        edge.append(P("lru-deep-handles", "lru", keys=[1, 2], hash={1: 0, 2: 1}, weights=[1], hints=["normal"],
+                      ops=["insert", "get", "clone", "drop"], max_held=2, max_ins=4, max_steps=7 if thorough else 6,
+                      init_caps=[1], caps=[]))
         for a in ALGOS:
             sim.append(P(f"{a}-sim", a, keys=[1, 2, 3, 4, 5], hash={1: 0, 2: 0, 3: 1, 4: 2, 5: 3}, shards=1,
                          weights=[1, 2], caps=[1, 3, 6], init_caps=[3, 5], max_ins=30, max_steps=40, max_held=4,
@@ -89,17 +131,24 @@ def judge(pid, d, p, ok_scripts, cand_scripts, tag):
     violations = []
     # conformance: every step of every execution must be a step of the concrete specification and
     # satisfy Inv; rejected executions join the candidates
-    acc, rej = mem.exact_rejections(d, p, ok_scripts, "full", tag)
-    stats["tlc_exact_scripts"] += len(ok_scripts)
-    conforming = list(ok_scripts)
-    for r in rej:
-        if "invariant" in r:
-            raise core.ToolError(f"invariant of the concrete model false on a conforming execution: {r}")
-        cand_scripts = cand_scripts + [ok_scripts[r["script"]]]
-        conforming[r["script"]] = None
-    conforming = [s for s in conforming if s is not None]
-    if len(rej) >= 8:
-        conforming = []  # too many rejections to sort out which of the rest conform
+    conforming = []
+    chunks = [ok_scripts[i:i + CHUNK] for i in range(0, len(ok_scripts), CHUNK)]
+
+    def exact_chunk(ic):
+        i, chunk = ic
+        return chunk, mem.exact_rejections(d, p, chunk, "full", f"{tag}_c{i}")
+
+    with cf.ThreadPoolExecutor(max_workers=INNER_PAR) as ex:
+        for chunk, (acc, rej) in ex.map(exact_chunk, enumerate(chunks)):
+            stats["tlc_exact_scripts"] += len(chunk)
+            keep = list(chunk)
+            for r in rej:
+                if "invariant" in r:
+                    raise core.ToolError(f"invariant of the concrete model false on a conforming execution: {r}")
+                cand_scripts = cand_scripts + [chunk[r["script"]]]
+                keep[r["script"]] = None
+            if len(rej) < 8:  # else: too many rejections to sort out which of the rest conform
+                conforming += [s for s in keep if s is not None]
     if pid == "C14":
         # victim order: the number of victims is taken from the log, their identity and order must be
         # the algorithm's (Trace_MemCache, ObsMode = "victims")
@@ -122,7 +171,10 @@ def judge(pid, d, p, ok_scripts, cand_scripts, tag):
         stats["drift"] += len(cand_scripts) - len(vs)
         # the monitor also runs over the conforming executions: an execution that is a behaviour of the
         # concrete specification (which satisfies Inv) must raise nothing, else monitor and spec disagree
-        vs_ok = mem.validate_diag(d, p, conforming, pid, tag + "_ok")
+        cchunks = [conforming[i:i + CHUNK] for i in range(0, len(conforming), CHUNK)]
+        with cf.ThreadPoolExecutor(max_workers=INNER_PAR) as ex:
+            res = list(ex.map(lambda ic: mem.validate_diag(d, p, ic[1], pid, f"{tag}_ok{ic[0]}"), enumerate(cchunks)))
+        vs_ok = [v for r in res for v in r]
         stats["tlc_prop_scripts"] += len(conforming)
         if vs_ok:
             raise core.ToolError(f"monitor raises {vs_ok[0]['bad']} on an execution that conforms to the "
@@ -148,7 +200,7 @@ def run_profile(pid, tier, p, kind, base, seed, workers):
                    by_field=rep["by_field"])
         ok_scripts, cand = mem.split_trace(trace)
     else:
-        num, length = (400, 60) if tier == "thorough" else (60, 40)
+        num, length = (4000, 50) if tier == "thorough" else (RAND_QUICK if pid == "C14" else RAND_QUICK // 2, 30)
         trace, info = mem.random_traces(d, p, seed, num, length)
         ok_scripts, cand = mem.split_trace(trace)
         nontriv = sum(1 for s in ok_scripts if any(json.loads(x)["obs"]["ev"] for x in s))
